@@ -289,6 +289,29 @@ def rule_forwarding_and_keying(rep, build, tier):
     api = facts.public_c_api(build)
     lay = effects.Layouts(m)
     init = effects.wipe_summaries(m, mode="init")
+    # ---- D4: the wrapper classes keep no state outside the object: a mutable variable with static storage in the
+    # C++ units would make what a member returns depend on which objects were used before (a default-constructed
+    # object must equal the C API called with the all-zero key, whatever the history of the process)
+    rep.rule("C17.D4", "the C++ units define no mutable variable with static storage (results do not depend on object history)")
+    cpp_files = set(os.path.join(repo.REPO, u.rel) for u in build.group("lib", ("c++",)))
+    nglob = 0
+    for g in m.globals.values():
+        if g.get("decl"):
+            continue
+        gfile = m.file_of(g.get("file", -1))
+        if gfile not in cpp_files and not str(gfile).endswith((".cpp", ".hpp")):
+            continue
+        nglob += 1
+        if g["constant"] or g.get("tls") or g["name"].startswith(("_ZTV", "_ZTS", "_ZTI", ".str", "__const", "switch.table")):
+            rep.instance("C17.D4", 1)
+            continue
+        rep.violation("C17.D4", "static:" + (g.get("srcname") or g["name"]), "%s:%s" % (gfile, g.get("line", 0)),
+                      "the C++ unit defines the mutable static variable %s (%d bytes%s): objects constructed or keyed later can "
+                      "observe what earlier objects left there, so a member no longer returns what the C function returns for the "
+                      "same key" % (g.get("srcname") or g["name"], g["size"],
+                                    ", inside " + g["infunc"] if g.get("infunc") else ""))
+    if nglob == 0:
+        rep.instance("C17.D4", 1, {"globals_in_cpp_units": 0})
     if container_lengths_module(rep, m, "lib/" + build.cfg.name) < 6:
         rep.broken.append("C17.D2s: fewer than 6 container-forwarding calls in the library's C++ units")
     for f in m.defined():
